@@ -37,9 +37,10 @@ BSubjOpts(f) == IF f = "onecrl" THEN {<<>>, <<[subj |-> "S1", key |-> "KS1"]>>} 
 Sets(f) == {[entries |-> e, bkeys |-> bk, bsubj |-> bs] : e \in EntryLists, bk \in BKeyOpts(f), bs \in BSubjOpts(f)}
 
 (* query certificates: issuer (name, key) pairs - the two listed CAs, a CA with I1's name
-   but I2's key (name/key crossing), an unrelated CA; every listed serial and one that is
+   but I2's key and one with I2's name but I1's key (name / key collisions: CRLSets go by
+   the key, OneCRL and the Microsoft store by the name), an unrelated CA; every listed serial and one that is
    never listed; leaf (subject, key) pairs around the blocked one *)
-IssuerPairs == {<<"N1", "K1">>, <<"N2", "K2">>, <<"N1", "K2">>, <<"N3", "K3">>}
+IssuerPairs == {<<"N1", "K1">>, <<"N2", "K2">>, <<"N1", "K2">>, <<"N2", "K1">>, <<"N3", "K3">>}
 LeafPairs   == {<<"S1", "KS1">>, <<"S1", "KS2">>, <<"S2", "KS1">>}
 QSerials    == {SerialU[j] : j \in 1..NSerials} \cup {Unlisted}
 Queries == SetToSeq({[iname |-> ip[1], ikey |-> ip[2], serial |-> s, subj |-> lp[1], skey |-> lp[2]] :
